@@ -6,7 +6,11 @@ package hgen
 
 const jsonTypes = `package j1
 
-import "github.com/csgura/fp"
+import (
+	"encoding/json"
+
+	"github.com/csgura/fp"
+)
 
 //go:generate gombok
 
@@ -45,6 +49,34 @@ type AllPub struct {
 type AllPriv struct {
 	id    int
 	count fp.Option[int]
+}
+
+// one codec method written by hand: the generator supplies the other one (and only that one)
+// @fp.Value
+// @fp.Json
+type HandEnc struct {
+	a int
+	b string
+}
+
+func (r HandEnc) MarshalJSON() ([]byte, error) {
+	return json.Marshal(r.AsMutable())
+}
+
+// @fp.Value
+// @fp.Json
+type HandDec struct {
+	a int
+	b string
+}
+
+func (r *HandDec) UnmarshalJSON(data []byte) error {
+	m := r.AsMutable()
+	if err := json.Unmarshal(data, &m); err != nil {
+		return err
+	}
+	*r = m.AsImmutable()
+	return nil
 }
 
 type Audit struct {
@@ -299,6 +331,24 @@ var _ struct {
 	Id    string ` + "`json:\"id,omitempty\"`" + `
 	Rev   int    ` + "`json:\"Rev\"`" + `
 } = OrderMutable{}
+
+func VH_c15_hand_written_codec_half() {
+	x := HandEnc{a: zz.Int("x.a"), b: zz.Str("x.b", 1)}
+	bs, err := x.MarshalJSON()
+	y := HandEnc{a: zz.Int("y.a")}
+	err2 := y.UnmarshalJSON(bs) // generated
+	zz.Assert(err == nil && err2 == nil && y.a == x.a && y.b == x.b, "hand-written MarshalJSON + generated UnmarshalJSON round trip")
+	u := HandDec{a: zz.Int("u.a"), b: zz.Str("u.b", 1)}
+	bu, err3 := u.MarshalJSON() // generated
+	v := HandDec{a: zz.Int("v.a")}
+	err4 := v.UnmarshalJSON(bu)
+	zz.Assert(err3 == nil && err4 == nil && v.a == u.a && v.b == u.b, "generated MarshalJSON + hand-written UnmarshalJSON round trip")
+	// through encoding/json, which must find both methods on each type
+	b2, e5 := json.Marshal(x)
+	var z HandEnc
+	e6 := json.Unmarshal(b2, &z)
+	zz.Assert(e5 == nil && e6 == nil && z.a == x.a && z.b == x.b, "json.Unmarshal(json.Marshal(x)) = x with a hand-written encoder")
+}
 
 func VH_c15_embedded_struct() {
 	x := Order{Audit: Audit{Rev: zz.Int("x.a.rev"), By: zz.Str("x.a.by", 1)}, id: zz.Str("x.id", 1), Rev: zz.Int("x.rev")}
